@@ -56,6 +56,11 @@ func (s *scanner) Scan(value bytes.Bytes) (*Number, error) {
 		return nil, err
 	}
 
+	if n.nat.Len() == 0 {
+		// Zero has no sign: "-0", "-0.0" and "0" denote the same value.
+		n.neg = false
+	}
+
 	return &n, nil
 }
 
